@@ -461,3 +461,53 @@ Proof.
   apply (hbp_norace_ordered (rwh_nthreads (wh_init st n ticks progs)));
     [apply rwh_trace_wf|apply rwh_monitor_silent].
 Qed.
+
+(* what the ordering rests on.  With the original store order (slot first, no re-validation) a
+   requester that loaded position before the tick and the slot after the tick's StorePointer
+   reads the fresh wheelData's field; the only edge from the ticker's write (event 8) to that
+   read (event 11) is StorePointer -> LoadPointer: without the release (event 9: the slot
+   written by a plain store) the pair races *)
+Lemma rwh_without_store_release_refuted :
+  let tr := rwh_trace WOrig (wh_init 10%Z 2 1 [[WhNew 10%Z]]) [1;1; 0;0;0;0; 1] in
+  nth_error tr 8 = Some (0, RWrite 2) /\ nth_error tr 9 = Some (0, RRel (rwh_slot 0)) /\
+  nth_error tr 11 = Some (1, RRead 2) /\
+  ~ hb_race tr /\ hb_race (firstn 9 tr ++ skipn 10 tr).
+Proof.
+  split; [vm_compute; reflexivity|]. split; [vm_compute; reflexivity|].
+  split; [vm_compute; reflexivity|]. split; [apply rwh_race_free|].
+  apply (hbp_sound 3). vm_compute. reflexivity.
+Qed.
+
+(* ------------------------------------------------------------------ labelling vs yield sites
+   C03 checks at every step that the real goroutine is parked at the yield site the model
+   predicts ([wh_site], numbers of loom/verif_on.go: 3 FetchLoadPosition, 4 FetchLoadSlot,
+   5 FetchReloadPosition, 6 TickLoadPosition, 7 TickLoadSlot, 8 TickStorePosition,
+   9 TickStoreSlot, 10 TickClose).  The labelling emits the operation the site names. *)
+Lemma rwh_sites o s tid :
+  match wh_site o s tid with
+  | 3 | 5 | 6 => exists rest, rwh_step o s tid = RAcq rwh_pos :: rest
+                              /\ Forall (fun e => ~ rm_sync e) rest
+  | 4 | 7 => rwh_step o s tid = [] \/
+             exists j rest, rwh_step o s tid = RAcq (rwh_slot j) :: rest
+                            /\ Forall (fun e => ~ rm_sync e) rest
+  | 8 => rwh_step o s tid = [RRel rwh_pos]
+  | 9 => exists lp, rwh_step o s tid = rwh_store_slot s lp
+  | 10 => exists last, rwh_step o s tid = [RRead last]
+  | _ => True
+  end.
+Proof.
+  destruct tid as [|k]; cbn [wh_site rwh_step].
+  - unfold rwh_tick_ev. destruct (wh_tpc_of s) as [| |lp|lp last|lp last|last|]; try exact I.
+    + eexists. split; [reflexivity|constructor].
+    + destruct (nth_error (wh_slots s) lp); [right|left; reflexivity].
+      eexists _, _. split; [reflexivity|constructor].
+    + destruct o; [eexists|]; reflexivity.
+    + destruct o; [|eexists]; reflexivity.
+    + eexists. reflexivity.
+  - destruct (nth_error (wh_threads s) k) as [th|]; [|exact I].
+    unfold rwh_req_ev. destruct (wh_rpc_of th) as [|i k0|i k0 p|i k0 p ch|]; try exact I.
+    + eexists. split; [reflexivity|constructor].
+    + destruct (nth_error (wh_slots s) ((p + i) mod wh_n s)); [right|left; reflexivity].
+      destruct o; eexists _, _; (split; [reflexivity|]); repeat constructor. intros [].
+    + eexists. split; [reflexivity|]. destruct (p =? wh_pos s); repeat constructor. intros [].
+Qed.
